@@ -29,8 +29,36 @@ impl Stream {
         x.hash(&mut s);
         s
     }
+    /// `y` feeds a hasher exactly the recorded stream (compared write by
+    /// write, so that no loop is longer than one `write` call: 8 bytes).
+    pub fn same_as<T: Hash + ?Sized>(&self, y: &T) -> bool {
+        let mut c = StreamCheck { reference: self, pos: 0, ok: true };
+        y.hash(&mut c);
+        c.ok && c.pos == self.len
+    }
     pub fn same(&self, o: &Stream) -> bool {
         bytes_eq(&self.buf[..self.len], &o.buf[..o.len])
+    }
+}
+
+pub struct StreamCheck<'a> {
+    reference: &'a Stream,
+    pos: usize,
+    ok: bool,
+}
+impl<'a> Hasher for StreamCheck<'a> {
+    fn finish(&self) -> u64 {
+        0
+    }
+    fn write(&mut self, bytes: &[u8]) {
+        let mut i = 0;
+        while i < bytes.len() {
+            if self.pos >= self.reference.len || self.reference.buf[self.pos] != bytes[i] {
+                self.ok = false;
+            }
+            self.pos += 1;
+            i += 1;
+        }
     }
 }
 impl Hasher for Stream {
@@ -83,7 +111,7 @@ macro_rules! check_pair {
         assert!($y.cmp($x) == want.reverse(), concat!("C08: ", $what, " ordering is not antisymmetric"));
         assert!($x.partial_cmp($y) == Some(c), concat!("C08: ", $what, " partial_cmp != Some(cmp)"));
         if eq {
-            assert!(Stream::of($x).same(&Stream::of($y)), concat!("C08: equal ", $what, " values feed different data to the hasher"));
+            assert!(Stream::of($x).same_as($y), concat!("C08: equal ", $what, " values feed different data to the hasher"));
         }
     }};
 }
@@ -108,7 +136,7 @@ macro_rules! check_mode {
             assert!($x.partial_cmp($y) == Some(c), concat!("C08: ", $what, " partial_cmp != Some(cmp)"));
         } else {
             if want == Ordering::Equal {
-                assert!(Stream::of($x).same(&Stream::of($y)), concat!("C08: equal ", $what, " values feed different data to the hasher"));
+                assert!(Stream::of($x).same_as($y), concat!("C08: equal ", $what, " values feed different data to the hasher"));
             }
         }
     }};
@@ -116,8 +144,9 @@ macro_rules! check_mode {
 
 macro_rules! pct_pair {
     ($fname:ident, $T:ty, $mk:expr, $what:literal) => {
-        /// Components compared after percent-decoding (octets).
-        fn $fname<const N: usize>() {
+        /// Components compared after percent-decoding (octets).  MODE selects
+        /// which group of assertions this instance decides (EQ / ORD / HASH).
+        fn $fname<const N: usize, const MODE: u8>() {
             let ta = Text::<N>::any();
             let tb = Text::<N>::any();
             let (a, b) = (ta.bytes(), tb.bytes());
@@ -131,11 +160,11 @@ macro_rules! pct_pair {
             };
             let (da, na) = pct_decode(a);
             let (db, nb) = pct_decode(b);
-            check_pair!(x, y, lex(&da[..na], &db[..nb]), $what);
-            assert!(*x == *x, "C07: not reflexive");
-            cover!(a.len() == 3 && b.len() == 1 && *x == *y, "an escape equal to a literal byte");
+            let want = lex(&da[..na], &db[..nb]);
+            check_mode!(MODE, x, y, want, $what);
+            cover!(a.len() == 3 && b.len() == 1 && want == Ordering::Equal, "an escape equal to a literal byte");
             cover!(a.len() == 3 && a[0] == b'%' && da[0] >= 0x80, "escape of a non-ASCII octet (e.g. %FF)");
-            cover!(a.len() != b.len() && *x != *y && a.len() > 1, "different values");
+            cover!(a.len() != b.len() && want != Ordering::Equal && a.len() > 1, "different values");
         }
     };
 }
@@ -182,67 +211,67 @@ pct_pair!(uri_host_pair, uri::Host, mk_uri_host, "uri::Host");
 pct_pair!(iri_segment_pair, iri::Segment, mk_iri_segment, "iri::Segment");
 pct_pair!(iri_query_pair, iri::Query, mk_iri_query, "iri::Query");
 
-// @h prop=C07,C08 tier=quick kind=check timeout=2400 mem=16 bound="all pairs of uri::Segment values <= 4 bytes each (escapes of any octet incl. %FF)" encodes="PartialEq/Ord/Hash for uri::Segment;utils::{pct_eq,pct_cmp,pct_hash};pct_str::Bytes::next"
+// @h prop=C07 tier=thorough kind=check timeout=2400 mem=16 bound="all pairs of uri::Segment values <= 4 bytes each (escapes of any octet incl. %FF)" encodes="PartialEq/Ord/Hash for uri::Segment;utils::{pct_eq,pct_cmp,pct_hash};pct_str::Bytes::next"
 #[cfg_attr(kani, kani::proof)]
 #[cfg_attr(kani, kani::unwind(10))]
 pub fn c07_uri_segment_pair_n4() {
-    uri_segment_pair::<4>()
+    uri_segment_pair::<4, EQ>()
 }
 
-// @h prop=C07,C08 tier=thorough kind=check timeout=3000 mem=20 bound="all pairs of uri::Segment values <= 6 bytes each (two escapes)" encodes="same as c07_uri_segment_pair_n4"
+// @h prop=C07 tier=thorough kind=check timeout=3000 mem=20 bound="all pairs of uri::Segment values <= 6 bytes each (two escapes)" encodes="same as c07_uri_segment_pair_n4"
 #[cfg_attr(kani, kani::proof)]
 #[cfg_attr(kani, kani::unwind(10))]
 pub fn c07_uri_segment_pair_n6() {
-    uri_segment_pair::<6>()
+    uri_segment_pair::<6, EQ>()
 }
 
-// @h prop=C07,C08 tier=quick kind=check timeout=2400 mem=16 bound="all pairs of uri::Host values <= 4 bytes each" encodes="PartialEq/Ord/Hash for uri::Host"
+// @h prop=C07 tier=thorough kind=check timeout=2400 mem=16 bound="all pairs of uri::Host values <= 4 bytes each" encodes="PartialEq/Ord/Hash for uri::Host"
 #[cfg_attr(kani, kani::proof)]
 #[cfg_attr(kani, kani::unwind(10))]
 pub fn c07_uri_host_pair_n4() {
-    uri_host_pair::<4>()
+    uri_host_pair::<4, EQ>()
 }
 
-// @h prop=C07,C08 tier=thorough kind=check timeout=3000 mem=20 bound="all pairs of uri::Query values <= 5 bytes each" encodes="PartialEq/Ord/Hash for uri::Query"
+// @h prop=C07 tier=thorough kind=check timeout=3000 mem=20 bound="all pairs of uri::Query values <= 5 bytes each" encodes="PartialEq/Ord/Hash for uri::Query"
 #[cfg_attr(kani, kani::proof)]
 #[cfg_attr(kani, kani::unwind(10))]
 pub fn c07_uri_query_pair_n5() {
-    uri_query_pair::<5>()
+    uri_query_pair::<5, EQ>()
 }
 
-// @h prop=C07,C08 tier=thorough kind=check timeout=3000 mem=20 bound="all pairs of uri::Fragment values <= 5 bytes each" encodes="PartialEq/Ord/Hash for uri::Fragment"
+// @h prop=C07 tier=thorough kind=check timeout=3000 mem=20 bound="all pairs of uri::Fragment values <= 5 bytes each" encodes="PartialEq/Ord/Hash for uri::Fragment"
 #[cfg_attr(kani, kani::proof)]
 #[cfg_attr(kani, kani::unwind(10))]
 pub fn c07_uri_fragment_pair_n5() {
-    uri_fragment_pair::<5>()
+    uri_fragment_pair::<5, EQ>()
 }
 
-// @h prop=C07,C08 tier=thorough kind=check timeout=3000 mem=20 bound="all pairs of uri::UserInfo values <= 5 bytes each" encodes="PartialEq/Ord/Hash for uri::UserInfo"
+// @h prop=C07 tier=thorough kind=check timeout=3000 mem=20 bound="all pairs of uri::UserInfo values <= 5 bytes each" encodes="PartialEq/Ord/Hash for uri::UserInfo"
 #[cfg_attr(kani, kani::proof)]
 #[cfg_attr(kani, kani::unwind(10))]
 pub fn c07_uri_userinfo_pair_n5() {
-    uri_userinfo_pair::<5>()
+    uri_userinfo_pair::<5, EQ>()
 }
 
-// @h prop=C07,C08 tier=quick kind=check timeout=2400 mem=16 bound="all pairs of iri::Segment values <= 4 bytes each (literal non-ASCII vs escapes: e-acute vs %C3%A9 needs 6, see n6)" encodes="PartialEq/Ord/Hash for iri::Segment"
+// @h prop=C07 tier=thorough kind=check timeout=2400 mem=16 bound="all pairs of iri::Segment values <= 4 bytes each (literal non-ASCII vs escapes: e-acute vs %C3%A9 needs 6, see n6)" encodes="PartialEq/Ord/Hash for iri::Segment"
 #[cfg_attr(kani, kani::proof)]
 #[cfg_attr(kani, kani::unwind(10))]
 pub fn c07_iri_segment_pair_n4() {
-    iri_segment_pair::<4>()
+    iri_segment_pair::<4, EQ>()
 }
 
-// @h prop=C07,C08 tier=thorough kind=check timeout=3000 mem=20 bound="all pairs of iri::Segment values <= 6 bytes each (literal U+00E9 vs %C3%A9 fits)" encodes="same as c07_iri_segment_pair_n4"
+// @h prop=C07 tier=thorough kind=check timeout=3000 mem=20 bound="all pairs of iri::Segment values <= 6 bytes each (literal U+00E9 vs %C3%A9 fits)" encodes="same as c07_iri_segment_pair_n4"
 #[cfg_attr(kani, kani::proof)]
 #[cfg_attr(kani, kani::unwind(10))]
 pub fn c07_iri_segment_pair_n6() {
-    iri_segment_pair::<6>()
+    iri_segment_pair::<6, EQ>()
 }
 
-// @h prop=C07,C08 tier=thorough kind=check timeout=3000 mem=20 bound="all pairs of iri::Query values <= 5 bytes each" encodes="PartialEq/Ord/Hash for iri::Query"
+// @h prop=C07 tier=thorough kind=check timeout=3000 mem=20 bound="all pairs of iri::Query values <= 5 bytes each" encodes="PartialEq/Ord/Hash for iri::Query"
 #[cfg_attr(kani, kani::proof)]
 #[cfg_attr(kani, kani::unwind(10))]
 pub fn c07_iri_query_pair_n5() {
-    iri_query_pair::<5>()
+    iri_query_pair::<5, EQ>()
 }
 
 /// Scheme and port: literal comparison.
@@ -352,7 +381,7 @@ fn path_vs_rep<const N: usize, const K: usize, const MODE: u8>() {
     cover!(want != Ordering::Equal, "different from the representative");
 }
 
-// @h prop=C07,C08 tier=quick kind=check timeout=3000 mem=24 bound="uri::Path <= 4 bytes x representative 'a/..': equality, both orders" encodes="PartialEq/Ord/Hash for uri::Path;NormalizedSegmentsImpl::new (SmallVec::push/try_grow stubbed)"
+// @h prop=C07,C08 tier=thorough kind=check timeout=3000 mem=30 bound="uri::Path <= 4 bytes x representative 'a/..': equality, both orders" encodes="PartialEq/Ord/Hash for uri::Path;NormalizedSegmentsImpl::new (SmallVec::push/try_grow stubbed)"
 #[cfg_attr(kani, kani::proof)]
 #[cfg_attr(kani, kani::unwind(10))]
 #[cfg_attr(kani, kani::stub(smallvec::SmallVec::try_grow, crate::stubs::sv_try_grow))]
@@ -361,7 +390,7 @@ pub fn c07_path_eq_rep6_n4() {
     path_vs_rep::<4, 6, EQ>()
 }
 
-// @h prop=C07,C08 tier=quick kind=check timeout=3000 mem=24 bound="uri::Path <= 4 bytes x representative '//a': ordering" encodes="same as c07_path_vs_rep6_n4"
+// @h prop=C07,C08 tier=thorough kind=check timeout=3000 mem=30 bound="uri::Path <= 4 bytes x representative '//a': ordering" encodes="same as c07_path_vs_rep6_n4"
 #[cfg_attr(kani, kani::proof)]
 #[cfg_attr(kani, kani::unwind(10))]
 #[cfg_attr(kani, kani::stub(smallvec::SmallVec::try_grow, crate::stubs::sv_try_grow))]
@@ -514,7 +543,7 @@ fn path_dots_vs_rep<const N: usize, const K: usize, const MODE: u8>() {
     cover!(want != Ordering::Equal, "different from the representative");
 }
 
-// @h prop=C07,C08 tier=quick kind=check timeout=3000 mem=24 bound="paths <= 7 bytes over the alphabet {'.','/','a'} x representative '..' (both orders)" encodes="PartialEq/Ord/Hash for uri::Path on dot-segment mixtures"
+// @h prop=C07,C08 tier=thorough kind=check timeout=3000 mem=30 bound="paths <= 7 bytes over the alphabet {'.','/','a'} x representative '..' (both orders)" encodes="PartialEq/Ord/Hash for uri::Path on dot-segment mixtures"
 #[cfg_attr(kani, kani::proof)]
 #[cfg_attr(kani, kani::unwind(10))]
 #[cfg_attr(kani, kani::stub(smallvec::SmallVec::try_grow, crate::stubs::sv_try_grow))]
@@ -532,11 +561,46 @@ pub fn c07_path_dots_eq_rep4_n9() {
     path_dots_vs_rep::<9, 4, EQ>()
 }
 
-// @h prop=C07,C08 tier=quick kind=check timeout=3000 mem=24 bound="uri::Path <= 4 bytes x representative '%61': equal values hash identically" encodes="Hash for uri::Path (absolute flag + normalised segments through pct_hash)"
+// @h prop=C07,C08 tier=thorough kind=check timeout=3000 mem=30 bound="uri::Path <= 4 bytes x representative '%61': equal values hash identically" encodes="Hash for uri::Path (absolute flag + normalised segments through pct_hash)"
 #[cfg_attr(kani, kani::proof)]
 #[cfg_attr(kani, kani::unwind(10))]
 #[cfg_attr(kani, kani::stub(smallvec::SmallVec::try_grow, crate::stubs::sv_try_grow))]
 #[cfg_attr(kani, kani::stub(smallvec::SmallVec::push, crate::stubs::sv_push))]
 pub fn c07_path_hash_rep9_n4() {
     path_vs_rep::<4, 9, HASH>()
+}
+
+// @h prop=C07 tier=quick kind=check timeout=2400 mem=6 bound="all pairs of uri::Segment values <= 3 bytes each (one escape of any octet incl. %FF vs a literal byte)" encodes="PartialEq/Ord/Hash for uri::Segment;utils::{pct_eq,pct_cmp,pct_hash};pct_str::Bytes::next"
+#[cfg_attr(kani, kani::proof)]
+#[cfg_attr(kani, kani::unwind(10))]
+pub fn c07_uri_segment_pair_n3() {
+    uri_segment_pair::<3, EQ>()
+}
+
+// @h prop=C07 tier=quick kind=check timeout=2400 mem=6 bound="all pairs of uri::Host values <= 3 bytes each" encodes="PartialEq/Ord/Hash for uri::Host"
+#[cfg_attr(kani, kani::proof)]
+#[cfg_attr(kani, kani::unwind(10))]
+pub fn c07_uri_host_pair_n3() {
+    uri_host_pair::<3, EQ>()
+}
+
+// @h prop=C07 tier=quick kind=check timeout=2400 mem=6 bound="all pairs of iri::Segment values <= 3 bytes each (a 3-byte scalar, or an escape)" encodes="PartialEq/Ord/Hash for iri::Segment"
+#[cfg_attr(kani, kani::proof)]
+#[cfg_attr(kani, kani::unwind(10))]
+pub fn c07_iri_segment_pair_n3() {
+    iri_segment_pair::<3, EQ>()
+}
+
+// @h prop=C08 tier=quick kind=check timeout=2400 mem=6 bound="all pairs of uri::Segment values <= 3 bytes each: ordering = order of the decoded octets" encodes="Ord/PartialOrd for uri::Segment;utils::pct_cmp"
+#[cfg_attr(kani, kani::proof)]
+#[cfg_attr(kani, kani::unwind(10))]
+pub fn c08_uri_segment_ord_n3() {
+    uri_segment_pair::<3, ORD>()
+}
+
+// @h prop=C08 tier=quick kind=check timeout=2400 mem=6 bound="all pairs of uri::Segment values <= 3 bytes each: equal values hash identically" encodes="Hash for uri::Segment;utils::pct_hash"
+#[cfg_attr(kani, kani::proof)]
+#[cfg_attr(kani, kani::unwind(10))]
+pub fn c08_uri_segment_hash_n3() {
+    uri_segment_pair::<3, HASH>()
 }
